@@ -29,6 +29,7 @@ from irispie.series import _ell_one as L1MOD
 from .common import Ctx, err_kind, rat_of_float, VERIF
 
 DRIVERS = ["C14"]
+EXTRA_PROPS = ['BridgeC14']   # refinement bridge from the executable QMat model to the matrix-level theorems (audited with this check)
 LEVEL = "proof"
 MANIFEST = {
     "category": "proof",
